@@ -6,7 +6,9 @@
 (*      operand op operand op ... operand                                  *)
 (* where an operand is an atom <<"atom", x>>, an application              *)
 (* <<"app", f, operand>> / <<"appn", f, <<operands>>>> (several arguments), a *)
-(* parenthesised chain <<"paren", tokens>> or <<"not", operand>>, or - as   *)
+(* parenthesised chain <<"paren", tokens>>, a tuple <<"tup", <<chains>>>> or *)
+(* slice literal <<"sl", <<chains>>>> (every component a whole chain), or   *)
+(* <<"not", operand>>, or - as                                             *)
 (* the LAST operand of its chain only - one of the terms that extend as    *)
 (* far as possible: a lambda <<"lam", x, body tokens>> (fun x -> body) or  *)
 (* a one-line conditional <<"ifx", cond tokens, then tokens, else tokens>>.*)
@@ -58,6 +60,8 @@ TermTree(t) ==
          [] t[1] = "not"   -> <<"not", TermTree(t[2])>>
          [] t[1] = "paren" -> ParseE(t[2], 1, 1)[1]        \* parentheses only group
          [] t[1] = "appn"  -> <<"appn", t[2], [i \in 1..Len(t[3]) |-> TermTree(t[3][i])]>>      \* h x y: arguments are atoms or ( chains )
+         [] t[1] = "tup"   -> <<"tup", [i \in 1..Len(t[2]) |-> ParseE(t[2][i], 1, 1)[1]]>>      \* (c1, c2): every component a whole chain
+         [] t[1] = "sl"    -> <<"sl", [i \in 1..Len(t[2]) |-> ParseE(t[2][i], 1, 1)[1]]>>       \* [c1; c2]
          [] t[1] = "lam"   -> <<"lam", t[2], ParseE(t[3], 1, 1)[1]>>
          [] t[1] = "ifx"   -> <<"if", ParseE(t[2], 1, 1)[1], ParseE(t[3], 1, 1)[1], ParseE(t[4], 1, 1)[1]>>
 
@@ -88,6 +92,8 @@ DeclTerm(t) ==
          [] t[1] = "not"   -> <<"not", DeclTerm(t[2])>>
          [] t[1] = "paren" -> Declarative(t[2])
          [] t[1] = "appn"  -> <<"appn", t[2], [i \in 1..Len(t[3]) |-> DeclTerm(t[3][i])]>>
+         [] t[1] = "tup"   -> <<"tup", [i \in 1..Len(t[2]) |-> Declarative(t[2][i])]>>
+         [] t[1] = "sl"    -> <<"sl", [i \in 1..Len(t[2]) |-> Declarative(t[2][i])]>>
          [] t[1] = "lam"   -> <<"lam", t[2], Declarative(t[3])>>
          [] t[1] = "ifx"   -> <<"if", Declarative(t[2]), Declarative(t[3]), Declarative(t[4])>>
 
@@ -102,10 +108,11 @@ Declarative(toks) ==
 (* Part 3: the text and fc's term parser over it.  Flat(toks) is the token text of a chain (what the harness writes);       *)
 (* FExpr is parseExprWithPrec / parseTerm / parseAtom over that text: a term is `not` TERM, `fun` x `->` EXPR, `if` EXPR      *)
 (* `then` EXPR `else` EXPR, or one or more atoms (a name applied to atoms); an atom is a name or ( EXPR ).                    *)
-Keywords == {"not", "fun", "->", "if", "then", "else", "(", ")"}
-RECURSIVE Flat(_), FlatOperand(_), FlatArgs(_)
+Keywords == {"not", "fun", "->", "if", "then", "else", "(", ")", ",", ";", "[", "]"}
+RECURSIVE Flat(_), FlatOperand(_), FlatArgs(_), FlatList(_, _)
+FlatList(cs, sep) == IF Len(cs) = 1 THEN Flat(cs[1]) ELSE Flat(cs[1]) \o <<sep>> \o FlatList(Tail(cs), sep)
 \* an argument is an atom or stands in parentheses
-FlatArg(t) == IF t[1] \in {"atom", "paren"} THEN FlatOperand(t) ELSE <<"(">> \o FlatOperand(t) \o <<")">>
+FlatArg(t) == IF t[1] \in {"atom", "paren", "tup", "sl"} THEN FlatOperand(t) ELSE <<"(">> \o FlatOperand(t) \o <<")">>
 FlatArgs(as) == IF as = <<>> THEN <<>> ELSE FlatArg(as[1]) \o FlatArgs(Tail(as))
 FlatOperand(t) ==
   CASE t[1] = "atom"  -> <<t[2]>>
@@ -113,15 +120,23 @@ FlatOperand(t) ==
     [] t[1] = "not"   -> <<"not">> \o FlatOperand(t[2])
     [] t[1] = "paren" -> <<"(">> \o Flat(t[2]) \o <<")">>
     [] t[1] = "appn"  -> <<t[2]>> \o FlatArgs(t[3])
+    [] t[1] = "tup"   -> <<"(">> \o FlatList(t[2], ",") \o <<")">>
+    [] t[1] = "sl"    -> <<"[">> \o FlatList(t[2], ";") \o <<"]">>
     [] t[1] = "lam"   -> <<"fun", t[2], "->">> \o Flat(t[3])
     [] t[1] = "ifx"   -> <<"if">> \o Flat(t[2]) \o <<"then">> \o Flat(t[3]) \o <<"else">> \o Flat(t[4])
 Flat(toks) == IF toks = <<>> THEN <<>>
               ELSE (IF Len(toks) % 2 = 1 THEN Flat(SubSeq(toks, 1, Len(toks) - 1)) \o FlatOperand(toks[Len(toks)])
                     ELSE Flat(SubSeq(toks, 1, Len(toks) - 1)) \o <<toks[Len(toks)]>>)
 
-StartsAtom(ts, p) == p <= Len(ts) /\ ts[p] \notin AllOps /\ (ts[p] \notin Keywords \/ ts[p] = "(")
-RECURSIVE FExpr(_, _, _), FBinAfter(_, _, _, _), FTerm(_, _), FAtom(_, _), FArgs(_, _)
-FAtom(ts, p) == IF ts[p] = "(" THEN LET e == FExpr(ts, p + 1, 1) IN <<e[1], e[2] + 1>>      \* ( EXPR )
+StartsAtom(ts, p) == p <= Len(ts) /\ ts[p] \notin AllOps /\ (ts[p] \notin Keywords \/ ts[p] \in {"(", "["})
+RECURSIVE FExpr(_, _, _), FBinAfter(_, _, _, _), FTerm(_, _), FAtom(_, _), FArgs(_, _), FElems(_, _, _)
+\* EXPR (sep EXPR)* up to the closing bracket: <<trees, position of the closing bracket>>
+FElems(ts, p, sep) == LET e == FExpr(ts, p, 1) IN
+                      IF ts[e[2]] = sep THEN LET r == FElems(ts, e[2] + 1, sep) IN <<<<e[1]>> \o r[1], r[2]>>
+                      ELSE <<<<e[1]>>, e[2]>>
+FAtom(ts, p) == IF ts[p] = "(" THEN LET es == FElems(ts, p + 1, ",") IN                      \* ( EXPR ) or a tuple ( EXPR , EXPR .. )
+                                    IF Len(es[1]) = 1 THEN <<es[1][1], es[2] + 1>> ELSE <<<<"tup", es[1]>>, es[2] + 1>>
+                ELSE IF ts[p] = "[" THEN LET es == FElems(ts, p + 1, ";") IN <<<<"sl", es[1]>>, es[2] + 1>>    \* [ EXPR ; EXPR .. ]
                 ELSE <<A(ts[p]), p + 1>>
 FArgs(ts, p) == IF StartsAtom(ts, p) THEN LET a == FAtom(ts, p)
                                                r == FArgs(ts, a[2]) IN <<<<a[1]>> \o r[1], r[2]>>
